@@ -470,7 +470,6 @@ func sameValue(a, b *Org) bool {
 	return a.V != nil && a.V == b.V
 }
 
-
 // fsValues: flow-sensitive resolution of a value that may be a load of a
 // local memory cell (an address-taken or captured local, a result spilled
 // because of defer): the values stored to the cell that can reach the load,
